@@ -44,6 +44,7 @@ type storedProf struct {
 		Count int32
 	}
 	Type, PeriodType, PeriodUnit string
+	Payload                      string // stored pprof (uncompressed), as MergeProfiles reads it
 }
 
 var (
@@ -226,6 +227,9 @@ func store(pd *wmodel.ProfileData) (sp *storedProf, types map[string]string, err
 	sp.Type = blk.Col("type")[0].(string)
 	sp.PeriodType = blk.Col("period_type")[0].(string)
 	sp.PeriodUnit = blk.Col("period_unit")[0].(string)
+	if c := blk.Col("payload"); c != nil {
+		sp.Payload = c[0].(string)
+	}
 	return sp, types, ""
 }
 
